@@ -47,19 +47,28 @@ Lemma x_ket_trace : forall D A v,
   trace C c0 cadd D (mmul C c0 cadd cmul D (outer C cmul cconj v) A).
 Proof. intros. eapply expect_ket_trace; close_hyps. Qed.
 
-Lemma x_sm_pure : forall D H v, hermitian C cconj D H ->
-  x_m2_sq D H (Ket C v) = nrm2 C cmul cconj (x_def_m2 D H (x_rho (Ket C v))).
-Proof. intros. eapply second_moment_pure; close_hyps. Qed.
+(** EnergySecondMoment and EnergyVariance of the executed model, every state *)
+Theorem x_second_moment_correct : forall d n H s, (0 < d)%nat -> hermitian C cconj (d ^ n) H ->
+  x_m2 d n H s = x_def_m2 (d ^ n) H (x_rho s).
+Proof. intros. eapply second_moment_correct; close_hyps. Qed.
 
-Lemma x_vs_pure : forall D H v,
-  x_var_sub D H (Ket C v) = nrm2 C cmul cconj (x_def_expect D H (x_rho (Ket C v))).
-Proof. intros. eapply variance_sub_pure; close_hyps. Qed.
+Theorem x_variance_correct : forall d n H s, (0 < d)%nat -> hermitian C cconj (d ^ n) H ->
+  x_variance d n H s = x_def_variance (d ^ n) H (x_rho s).
+Proof. intros. eapply variance_correct; close_hyps. Qed.
 
-Lemma x_energy_real : forall D H v, hermitian C cconj D H ->
-  cconj (x_def_expect D H (x_rho (Ket C v))) = x_def_expect D H (x_rho (Ket C v)).
-Proof. intros. eapply energy_pure_real; close_hyps. Qed.
+(** real parts lose nothing: for Hermitian rho and H the energy and the second
+    moment have no imaginary part *)
+Theorem x_energy_real : forall D H rho, hermitian C cconj D H -> hermitian C cconj D rho ->
+  snd (x_def_expect D H rho) = 0.
+Proof.
+  intros D H rho HH Hr.
+  assert (E : cconj (x_def_expect D H rho) = x_def_expect D H rho).
+  { eapply def_expect_real; close_hyps. }
+  destruct (x_def_expect D H rho) as [a b]. unfold cconj in E. simpl in *. inversion E. lia.
+Qed.
 
-(** ** signs: <phi|phi> is a non-negative real *)
+(** ** signs: <phi|phi> is a non-negative real, hence the second moment of a
+    pure state is *)
 Lemma inner_self_nonneg : forall D (v : cvec),
   0 <= fst (inner C c0 cadd cmul cconj D v v) /\ snd (inner C c0 cadd cmul cconj D v v) = 0.
 Proof.
@@ -68,40 +77,20 @@ Proof.
   - destruct (IHD v) as [H1 H2]. destruct (v D) as [a b]. simpl. split; nia.
 Qed.
 
-(** EnergySecondMoment on a ket: the quantity under the code's square root is
-    exactly the square of the non-negative real [Tr(rho H^2)]; hence the code's
-    value IS the second moment. *)
-Theorem x_second_moment_pure : forall D H v, hermitian C cconj D H ->
-  let m := x_def_m2 D H (x_rho (Ket C v)) in
-  snd m = 0 /\ 0 <= fst m /\ x_m2_sq D H (Ket C v) = (fst m * fst m, 0).
+Theorem x_second_moment_pure_nonneg : forall D H v, hermitian C cconj D H ->
+  let m := x_def_m2 D H (x_rho (Ket C v)) in snd m = 0 /\ 0 <= fst m.
 Proof.
   intros D H v HH m.
   assert (Em : m = inner C c0 cadd cmul cconj D (mvec C c0 cadd cmul D H v) (mvec C c0 cadd cmul D H v)).
   { unfold m, x_def_m2, x_rho, def_m2. simpl.
     rewrite <- x_ket_trace. symmetry. apply x_inner_HH. assumption. }
   destruct (inner_self_nonneg D (mvec C c0 cadd cmul D H v)) as [Hn Hi].
-  rewrite <- Em in Hn, Hi.
-  split; [assumption|]. split; [assumption|].
-  rewrite x_sm_pure by assumption. fold m.
-  unfold nrm2, cmul, cconj. destruct m as [a b]. simpl in *. subst b.
-  f_equal; ring.
+  rewrite <- Em in Hn, Hi. split; assumption.
 Qed.
 
-(** EnergyVariance on a ket: the subtracted term is the square of the (real) energy *)
-Theorem x_variance_sub_pure : forall D H v, hermitian C cconj D H ->
-  let e := x_def_expect D H (x_rho (Ket C v)) in
-  snd e = 0 /\ x_var_sub D H (Ket C v) = (fst e * fst e, 0).
-Proof.
-  intros D H v HH e.
-  assert (Hr : cconj e = e) by (apply x_energy_real; assumption).
-  assert (Hs : snd e = 0).
-  { destruct e as [a b]. unfold cconj in Hr. simpl in *. inversion Hr. lia. }
-  split; [assumption|].
-  rewrite x_vs_pure. fold e.
-  unfold nrm2, cmul, cconj. destruct e as [a b]. simpl in *. subst b. f_equal; ring.
-Qed.
-
-(** ** refutations on density matrices: rho = I/2 (entries over 2), H = diag(1,2) *)
+(** ** the former counterexample (rho = I/2 over 2, H = diag(1,2)): before the
+    repair 2eafc757 the code gave sqrt(17/4) and subtracted 5/4; now the second
+    moment is 5/2 and the energy 3/2 (variance 5/2 - 9/4 = 1/4), as defined *)
 Definition w_H : cmat := mat_of_rows [[(1, 0); (0, 0)]; [(0, 0); (2, 0)]].
 Definition w_rho : cmat := mat_of_rows [[(1, 0); (0, 0)]; [(0, 0); (1, 0)]].   (* over 2 *)
 
@@ -116,35 +105,18 @@ Proof.
   destruct i as [|[|i]]; destruct j as [|[|j]]; try lia; reflexivity.
 Qed.
 
-(** code: sqrt(17/4) = 2.0616; definition: Tr(rho H^2) = 5/2, square 25/4 *)
-Theorem second_moment_mixed_refuted : exists D H M,
-  hermitian C cconj D H /\ hermitian C cconj D M /\
-  x_m2_sq D H (Dm C M) = (17, 0) /\ x_def_m2 D H M = (5, 0) /\
-  fst (x_m2_sq D H (Dm C M)) <> fst (x_def_m2 D H M) * fst (x_def_m2 D H M).
+Theorem second_moment_mixed_witness :
+  hermitian C cconj 2 w_H /\ hermitian C cconj 2 w_rho /\
+  x_m2 2 1 w_H (Dm C w_rho) = (5, 0) /\ x_def_m2 2 w_H w_rho = (5, 0).
 Proof.
-  exists 2%nat, w_H, w_rho.
   split; [apply w_H_hermitian|]. split; [apply w_rho_hermitian|].
-  split; [vm_compute; reflexivity|]. split; [vm_compute; reflexivity|].
-  vm_compute. discriminate.
+  split; vm_compute; reflexivity.
 Qed.
 
-(** code subtracts Tr(rho H rho H) = 5/4; definition subtracts (Tr rho H)^2 = 9/4 *)
-Theorem variance_mixed_refuted : exists D H M,
-  hermitian C cconj D H /\ hermitian C cconj D M /\
-  x_var_sub D H (Dm C M) = (5, 0) /\ x_def_expect D H M = (3, 0) /\
-  fst (x_var_sub D H (Dm C M)) <> fst (x_def_expect D H M) * fst (x_def_expect D H M).
-Proof.
-  exists 2%nat, w_H, w_rho.
-  split; [apply w_H_hermitian|]. split; [apply w_rho_hermitian|].
-  split; [vm_compute; reflexivity|]. split; [vm_compute; reflexivity|].
-  vm_compute. discriminate.
-Qed.
-
-(** the proposed fix is right on the same witness (and in general:
-    [fixed_second_moment_correct]) *)
-Example fixed_second_moment_witness :
-  x_expect 2 (delta C c0 c1) (x_apply 2 w_H (Dm C w_rho)) = x_def_m2 2 w_H w_rho.
-Proof. vm_compute. reflexivity. Qed.
+Theorem variance_mixed_witness :
+  x_m2 2 1 w_H (Dm C w_rho) = (5, 0) /\ x_expect 2 w_H (Dm C w_rho) = (3, 0) /\
+  x_def_m2 2 w_H w_rho = (5, 0) /\ x_def_expect 2 w_H w_rho = (3, 0).
+Proof. repeat split; vm_compute; reflexivity. Qed.
 
 (** the hypotheses of the abstract development are satisfiable *)
 Example hypotheses_satisfiable :
